@@ -29,16 +29,17 @@ for p in props:
 for p in props:
     if p not in meta and p not in [x["property_id"] for x in na]:
         raise SystemExit("property %s neither claimed nor not_applicable" % p)
-hooks_commits = json.load(open(os.path.join(V, "hooks.json")))
+import subprocess
+hooks_commits = {"source_commits": [l.split()[0] for l in subprocess.run(["git", "-C", "/repo", "log", "--format=%h %s"], capture_output=True, text=True).stdout.splitlines() if " verif hook:" in " " + l]}
 man = {
     "version": 1,
     "setup_cmd": "mkdir -p /verif/evidence && python3 -m py_compile /verif/verif.py",
     "hooks": {
         "guard": "GUANZHI_GMSSL_VERIF",
-        "enable": "goto-cc -DVERIF_CBMC -DGUANZHI_GMSSL_VERIF (loop-contract macros of include/gmssl/verif.h expand to __CPROVER_* clauses; with the guard off they expand to nothing)",
+        "enable": "goto-cc -DVERIF_CBMC -DGUANZHI_GMSSL_VERIF (loop-contract macros of include/gmssl/verif.h expand to __CPROVER_* clauses; with the guard off they expand to nothing). Not strictly add-only: annotating a loop moves its opening brace to its own line (`while (c) {` becomes `while (c)` + clauses + `{`); no other existing token changes.",
         "baseline_off_cmd": "cmake -G Ninja -B /repo/_build -S /repo && cmake --build /repo/_build && ctest --test-dir /repo/_build -j8 --timeout 900",
         "source_commits": hooks_commits["source_commits"],
-        "add_only": True,
+        "add_only": False,
     },
     "engines": [{"name": "cbmc-dfcc", "path": "/verif/verif.py",
                  "serves_properties": [c["property_id"] for c in checks],
